@@ -42,7 +42,7 @@ PROPERTIES = {
            _fz('fz_load_csv', 'fz_load.cpp', ['-DFZ_ARCH=3'], 'CSV: bytes as a table for vector<typed row>, vector<map>, list; separators , and ;; all media', qruns=150000, dictfile='text.dict'),
            _fz('fz_convert', 'fz_convert.cpp', [], 'strings in char / char16_t / char32_t / wchar_t for Convert::To of 34 target types (all integer widths, float, double, long double, bool, enum, 7 time_point and 7 duration precisions, CRawTime, tm, strings); in-target oracle: an accepted value prints to text that parses to the same value; non-trivial = converted, or the text holds a digit', qruns=600000, dictfile='convert.dict'),
            _fz('fz_utf', 'fz_utf.cpp', [], 'code-unit sequences (8 / 16 / 32 bit) for Transcode, UtfN::Decode (LE and BE), UtfN::Encode into 3 target widths x 2 policies x 3 error marks; in-target oracle: iterator inside the input, existing output preserved, Skip output well-formed per ref_utf; non-trivial = ill-formed or longer than 3 units', qruns=600000),
-           U('c02_ladder', 'c02_ladder.cpp', flavour='asan', libs=['-lpugixml'], isolate=True, cpu=20, quick=dict(cases=120, shards=12, min_eval=1000, timeout=900), thorough=dict(cases=1500, shards=16, min_eval=20000, timeout=7200)),
+           U('c02_ladder', 'c02_ladder.cpp', flavour='asan', libs=['-lpugixml'], isolate=True, cpu=20, quick=dict(cases=220, shards=14, min_eval=2000, timeout=900), thorough=dict(cases=1500, shards=16, min_eval=20000, timeout=7200)),
            _fz('fz_encoded_stream', 'fz_encoded_stream.cpp', [], 'bytes as an encoded stream for DetectEncoding (string and stream) and CEncodedStreamReader<char|char16_t|char32_t, 32|256> over istringstream / short-read streambuf; in-target oracle: end reached within size+64 ReadChunk calls, Skip output well-formed; non-trivial = several chunks, a BOM or a decoding error', qruns=400000)]),
  'C03': dict(
     level='exploration', exhaustive_claim=False,
